@@ -18,6 +18,7 @@ import (
 	"github.com/tetratelabs/wazero/experimental"
 	"github.com/tetratelabs/wazero/verifharness/core"
 	"github.com/tetratelabs/wazero/verifharness/guardmem"
+	"github.com/tetratelabs/wazero/verifharness/wenc"
 	"github.com/tetratelabs/wazero/verifharness/wgen"
 	"github.com/tetratelabs/wazero/verifharness/wrun"
 )
@@ -45,10 +46,11 @@ func (p point) String() string {
 }
 
 type pcase struct {
-	Prog  uint64 `json:"prog"`
-	P     point  `json:"point"`
-	Dir   string `json:"dir,omitempty"`
-	Prime bool   `json:"prime,omitempty"`
+	Directed string `json:"directed,omitempty"` // hand-built program instead of a generated one
+	Prog     uint64 `json:"prog"`
+	P        point  `json:"point"`
+	Dir      string `json:"dir,omitempty"`
+	Prime    bool   `json:"prime,omitempty"`
 }
 
 type presult struct {
@@ -102,6 +104,15 @@ func run(c *core.Ctx) int {
 	}
 	for i := 0; i < nPairs; i++ {
 		add(pcase{Prog: rng.U64(), P: pts[rng.Intn(len(pts))]})
+	}
+	// directed program: a deep chain of proper tail calls (constant stack) must stay a deep chain of
+	// proper tail calls at every point (e.g. with listeners attached)
+	for l := 0; l < 4; l++ {
+		for e := 0; e < 2; e++ {
+			for _, cache := range []int{0, 1} {
+				add(pcase{Directed: "deep-tail-calls", P: point{Cache: cache, Listeners: l, Compiler: e == 1, CloseCtx: l%2 == 1}})
+			}
+		}
 	}
 	// stage 1: prime the warm directories in separate processes
 	var primes []json.RawMessage
@@ -173,7 +184,7 @@ func (l countListener) Before(context.Context, api.Module, api.FunctionDefinitio
 	*l.n++
 }
 func (l countListener) After(context.Context, api.Module, api.FunctionDefinition, []uint64) { *l.n++ }
-func (l countListener) Abort(context.Context, api.Module, api.FunctionDefinition, error)     { *l.n++ }
+func (l countListener) Abort(context.Context, api.Module, api.FunctionDefinition, error)    { *l.n++ }
 
 type factory struct {
 	n      *int
@@ -242,8 +253,15 @@ func child(mode string, in json.RawMessage) any {
 	json.Unmarshal(in, &pc)
 	r := core.NewRng(int64(pc.Prog), 5)
 	cfg := wgen.DefaultConfig(r)
-	p := wgen.Generate(r, cfg)
-	script := wrun.GenScript(r, p, 3+r.Intn(6))
+	var p *wgen.Program
+	var script []wrun.Step
+	if pc.Directed == "deep-tail-calls" {
+		p, script = deepTailCalls()
+		cfg = p.Cfg
+	} else {
+		p = wgen.Generate(r, cfg)
+		script = wrun.GenScript(r, p, 3+r.Intn(6))
+	}
 	feats := wrun.Features(cfg)
 	pt := pc.P
 	var pr presult
@@ -364,6 +382,30 @@ func child(mode string, in json.RawMessage) any {
 		pr.Sample = base.Events[:min(len(base.Events), 4)]
 	}
 	return pr
+}
+
+// deepTailCalls builds count(n) = n==0 ? 42 : return_call count(n-1) and the same through
+// return_call_indirect, to be called with n = 5 000 000: only proper tail calls survive that depth.
+func deepTailCalls() (*wgen.Program, []wrun.Step) {
+	m := &wenc.Module{}
+	i32 := []wenc.ValType{wenc.I32}
+	ti := m.AddType(i32, i32)
+	m.Tables = []wenc.TableType{{Elem: wenc.FuncRef, Lim: wenc.Limits{Min: 2}}}
+	m.Mems = []wenc.Limits{{Min: 1, Max: 1, HasMax: true}}
+	c0 := &wenc.Code{}
+	c0.LocalGet(0).Op(0x45).If(0x40).I32Const(42).Return().End().LocalGet(0).I32Const(1).Op(0x6b).ReturnCall(0).End()
+	f0 := m.AddFunc(i32, i32, nil, c0.B)
+	c1 := &wenc.Code{}
+	c1.LocalGet(0).Op(0x45).If(0x40).I32Const(42).Return().End().LocalGet(0).I32Const(1).Op(0x6b).I32Const(1).ReturnCallIndirect(ti, 0).End()
+	f1 := m.AddFunc(i32, i32, nil, c1.B)
+	m.Elems = []wenc.Elem{{Mode: 0, Offset: wenc.ConstI32(0), FuncIdx: []uint32{f0, f1}}}
+	m.ExportFunc("f0", f0)
+	m.ExportFunc("f1", f1)
+	m.ExportFunc("__setfuel", m.AddFunc(i32, nil, nil, (&wenc.Code{}).End().B))
+	m.Exports = append(m.Exports, wenc.Export{Name: "mem", Kind: wenc.ExtMemory})
+	p := &wgen.Program{Bin: m.Encode(), Cfg: wgen.Config{TailCall: true, Fuel: 1}, OpsUsed: map[string]int{"return_call": 1},
+		Funcs: []wgen.FuncSig{{Params: i32, Results: i32}, {Params: i32, Results: i32}}, FuncIndex: map[string]uint32{"f0": f0, "f1": f1}, Types: m.Types, Mod: m}
+	return p, []wrun.Step{{Kind: "call", Fn: "f0", Args: []uint64{5000000}}, {Kind: "call", Fn: "f1", Args: []uint64{5000000}}, {Kind: "call", Fn: "f0", Args: []uint64{3}}}
 }
 
 // culprit finds a single option that alone reproduces a difference (for the signature).
